@@ -177,3 +177,58 @@ class _StructShim:
 
 
 struct_shim = _StructShim()
+
+
+class SymGrid:
+    """2-D list-of-lists stand-in backed by a z3 array (index = row * width + col).
+    Used for HD61202.vram so symbolic page/column indices never fork."""
+
+    def __init__(self, name, rows, cols, arr=None):
+        self.rows, self.cols = rows, cols
+        self.arr = arr if arr is not None else z3.Array(name, z3.BitVecSort(16), z3.BitVecSort(8))
+        self.writes = []
+
+    def _idx(self, r, c):
+        for v, n in ((r, self.rows), (c, self.cols)):
+            ok = (v >= 0) & (v < n) if core.is_sym(v) else (0 <= v < n)
+            if not ok:
+                raise IndexError("list index out of range")
+        lin = r * self.cols + c
+        return z3.BitVecVal(lin, 16) if isinstance(lin, int) else z3.Extract(15, 0, lin.t)
+
+    def get(self, r, c):
+        t = z3.Select(self.arr, self._idx(r, c))
+        return SymInt.zext(t)
+
+    def set(self, r, c, v):
+        i = self._idx(r, c)
+        self.writes.append(i)
+        self.arr = z3.Store(self.arr, i, core.term_of(v, 8))
+
+    def __getitem__(self, r):
+        return _SymGridRow(self, r)
+
+    def __len__(self):
+        return self.rows
+
+    def __iter__(self):
+        for r in range(self.rows):
+            yield _SymGridRow(self, r)
+
+
+class _SymGridRow:
+    def __init__(self, grid, r):
+        self.grid, self.r = grid, r
+
+    def __getitem__(self, c):
+        return self.grid.get(self.r, c)
+
+    def __setitem__(self, c, v):
+        self.grid.set(self.r, c, v)
+
+    def __len__(self):
+        return self.grid.cols
+
+    def __iter__(self):
+        for c in range(self.grid.cols):
+            yield self.grid.get(self.r, c)
